@@ -154,6 +154,10 @@ type bbrSim struct {
 	appWaiting bool
 	ptoGen     int64
 	fat        bool
+	prtt       bool  // loss-free low-capacity path with ack aggregation, long enough to enter and leave PROBE_RTT
+	prttSince  int64 // sim time at which the sender was first seen in PROBE_RTT (0 = not in it)
+	prttEntered bool
+	prttMaxDwell int64
 	quicSize   int64 // the size of full packets QUIC sends (>= the controller's datagram size)
 	byAddr     int64
 }
@@ -350,6 +354,35 @@ func (s *bbrSim) congEvent(acked, lost []*simPkt, prior int64, tag string) {
 		return
 	}
 	s.op(fmt.Sprintf("ev %d %d %d %s %s", prior, s.now, int64(s.c.rtt.min), fmtPkts(acked), fmtPkts(lost)), tag)
+	s.watchProbeRtt()
+}
+
+// watchProbeRtt: model-free STALL oracle (a).  On a loss-free fixed-capacity path with acks flowing the
+// sender must leave PROBE_RTT again: probeRttTime (200 ms) plus a round trip, with a generous factor.
+// (Performance clause of the property: supporting evidence + stall oracle, no theorem.)
+func (s *bbrSim) watchProbeRtt() {
+	if s.c.b == nil {
+		return
+	}
+	if s.c.b.mode != bbrModeProbeRtt {
+		s.prttSince = 0
+		return
+	}
+	if s.prttSince == 0 {
+		s.prttSince = s.now
+		s.prttEntered = true
+		return
+	}
+	dwell := s.now - s.prttSince
+	if dwell > s.prttMaxDwell {
+		s.prttMaxDwell = dwell
+	}
+	bound := 10 * (int64(probeRttTime) + s.rttNs + s.aggNs + int64(25*time.Millisecond))
+	if s.clean && !s.stalled && dwell > bound {
+		s.stalled = true
+		s.op(fmt.Sprintf("stall t=%d profile=%s in PROBE_RTT for %d ms on a loss-free path (bound %d ms): acks keep arriving but the sender never leaves PROBE_RTT",
+			s.now, s.prof, dwell/1000000, bound/1000000), "stall-probertt")
+	}
 }
 
 func (s *bbrSim) onAck(a *simAck) {
@@ -692,6 +725,9 @@ func (s *bbrSim) run(budget int) {
 			idleGuard = 0
 		}
 	}
+	if s.prttEntered {
+		s.op(fmt.Sprintf("note probe-rtt entered profile=%s max-dwell=%dms sim-seconds=%.1f", s.prof, s.prttMaxDwell/1000000, float64(s.now-start)/1e9), "probertt-entered")
+	}
 	if s.fat {
 		s.op(fmt.Sprintf("note fat-path profile=%s cwnd=%d max=%d", s.prof, int64(s.c.b.GetCongestionWindow()), int64(s.c.b.maxCongestionWindow)), "fat-trace")
 	} else if s.clean && s.deliveredFrom >= 0 && s.now > s.deliveredFrom {
@@ -702,6 +738,11 @@ func (s *bbrSim) run(budget int) {
 		}
 		s.op(fmt.Sprintf("note clean-path profile=%s capacity=%.0fB/s rtt=%.1fms delivered/capacity=%.3f", s.prof, s.capBps, float64(s.rttNs)/1e6, util),
 			fmt.Sprintf("util:%s:%02d0%%", s.prof, bucket))
+		// STALL oracle (b): over a long window after start-up a loss-free path must carry well above 30 % of capacity
+		window := s.now - s.deliveredFrom
+		if !s.stalled && window > 60*s.rttNs+60*s.aggNs && window > int64(2*time.Second) && util < 0.3 {
+			s.op(fmt.Sprintf("stall profile=%s delivered/capacity=%.3f < 0.3 over %d ms on a loss-free %.0f B/s path", s.prof, util, window/1000000, s.capBps), "stall-goodput")
+		}
 	}
 }
 
@@ -727,6 +768,10 @@ func (s *bbrSim) pendingProgress() bool {
 // ---------------------------------------------------------------- generator
 
 func (c *verifBbr) Gen(r *vh.RNG, n int, emit func(op string, tags ...string)) {
+	if c.coreOnly {
+		c.genFat(r, n, emit)
+		return
+	}
 	// n = number of ops; traces of ~2000 ops, every 6th trace is a clean fixed-capacity path
 	profs := []string{"std", "con", "agg"}
 	done := 0
@@ -744,17 +789,24 @@ func (c *verifBbr) Gen(r *vh.RNG, n int, emit func(op string, tags ...string)) {
 		if clean {
 			per = min(3*per, max(n-done, 50)) // clean fixed-capacity paths run longer (utilisation after start-up)
 		}
-		// one long fat loss-free path per 100 traces: start-up drives the window up to the 20000-packet cap
-		fat := k == 20 && n-done >= 90000
-		if fat {
-			clean, per = true, 90000
-			prof = profs[r.Intn(3)]
+		// every 25th trace: a loss-free slow path with ack aggregation, run for > 12 simulated seconds so that
+		// min_rtt expires (10 s) and PROBE_RTT is entered and must be left again
+		prtt := k%25 == 5
+		if prtt {
+			clean, per = true, min(9000, max(n-done, 50))
 		}
 		s := newSim(r.Fork(), c, emit, prof, clean)
-		if fat {
-			s.fat = true
-			s.capBps, s.rttNs, s.ackEvery = 600e6, 300e6, 10
-			s.queueBytes = 8 * s.capBps * float64(s.rttNs) / 1e9
+		if prtt {
+			s.prtt = true
+			s.capBps = logUniform(s.r, 200e3, 500e3)
+			s.rttNs = int64(logUniform(s.r, 15e6, 50e6))
+			if k%50 == 5 {
+				// delayed acks: one ACK frame (25 ms timer) covers the whole 4-packet PROBE_RTT flight
+				s.ackEvery = 16
+			} else {
+				s.aggNs = int64(logUniform(s.r, 30e6, 80e6))
+			}
+			s.queueBytes = math.Max(8*s.capBps*float64(s.rttNs)/1e9, 64*float64(s.mds))
 		}
 		s.run(per)
 		done += s.ops
@@ -765,6 +817,20 @@ func (c *verifBbr) Gen(r *vh.RNG, n int, emit func(op string, tags ...string)) {
 			"a0max:"+bucketOf(c.maxA0), "slotsmax:"+bucketOf(c.maxSlots))
 		done++
 		k++
+	}
+}
+
+// genFat (component `bbrfat`): long fat loss-free paths on which start-up drives the window up to the
+// 20000-packet cap; one trace per 90 000 ops, profile drawn from the seed.
+func (c *verifBbr) genFat(r *vh.RNG, n int, emit func(op string, tags ...string)) {
+	profs := []string{"std", "con", "agg"}
+	for done := 0; done < n; {
+		s := newSim(r.Fork(), c, emit, profs[r.Intn(3)], true)
+		s.fat = true
+		s.capBps, s.rttNs, s.ackEvery = 600e6, 300e6, 10
+		s.queueBytes = 8 * s.capBps * float64(s.rttNs) / 1e9
+		s.run(90000)
+		done += s.ops + 1
 	}
 }
 
